@@ -35,6 +35,11 @@ if [ "${1:-}" = "build" ]; then
     build; exit $?
 fi
 ID="${1:?property id}"; MODE="${2:-quick}"
+# a replay file may be given relative to the caller's directory or to this directory
+REPLAY="${3:-}"
+if [ -n "$REPLAY" ] && [ "${REPLAY#/}" = "$REPLAY" ]; then
+    if [ -e "$PWD/$REPLAY" ]; then REPLAY="$PWD/$REPLAY"; elif [ -e "$HERE/$REPLAY" ]; then REPLAY="$HERE/$REPLAY"; fi
+fi
 build || exit 2
 BIN="$HERE/target/release/check"
 case "$MODE" in
@@ -43,7 +48,7 @@ case "$MODE" in
         "$BIN" "$ID" --tier "$MODE" 2>"$HERE/target/$ID.stderr"; rc=$?
         grep -E "^(INCONCLUSIVE|warning: cannot|cannot )" "$HERE/target/$ID.stderr" | head -n 20 ;;
     replay)
-        "$BIN" "$ID" --replay "${3:?replay file}"; rc=$? ;;
+        "$BIN" "$ID" --replay "${REPLAY:?replay file}"; rc=$? ;;
     *) echo "unknown mode $MODE"; exit 2 ;;
 esac
 # thorough tier: bounded coverage-guided campaigns with the same oracle inside the target
